@@ -152,6 +152,19 @@ class Gen:
             if depth > 3 and (f.default is not dataclasses.MISSING or f.default_factory is not dataclasses.MISSING):
                 continue
             kw[f.name] = self.value(tp, depth)
+        if self.v == 5:
+            # "absent" instances: what extractors build when the source has no value -- None in every field whose default is
+            # something else (DocMetadata.num_pages from a .doc without counts, EmailContent.reply_to from a .msg without Reply-To);
+            # a None the constructor / __post_init__ of the class does not accept is left out
+            for f in dataclasses.fields(cls):
+                has_default = (f.default is not dataclasses.MISSING and f.default is not None) or f.default_factory is not dataclasses.MISSING
+                if f.init and has_default and f.name in kw:
+                    trial = dict(kw, **{f.name: None})
+                    try:
+                        cls(**trial)
+                    except Exception:  # noqa
+                        continue
+                    kw = trial
         return cls(**kw)
 
 
@@ -335,7 +348,7 @@ def _first_diff(a, b, path="$"):
     return "" if a == b else f"{path}: {a!r:.80} vs {b!r:.80}"
 
 
-def type_directed_scope(marker_keys=False, variants=(0, 1, 2, 3, 4)):
+def type_directed_scope(marker_keys=False, variants=(0, 1, 2, 3, 4, 5)):
     """Every registered dataclass x several variants; -> (first failure or None, number of instances checked)."""
     from sharepoint2text.parsing.extractors.serialization import _get_type_registry
     n = 0
@@ -623,6 +636,91 @@ def xlsx_cells_scope():
           n += 1
           for r in results:
             where = {"file": f"XLSX with {'cell B2' if where_ == 'data' else 'header cell B1'} = {label} ({v!r})", "sheet_data": repr(r.sheets[0].data) if r.sheets else None}
+            fail = check_instance(r, where)
+            for u in ([] if fail else r.iterate_units()):
+                fail = fail or check_instance(u, dict(where, unit=True))
+            if fail:
+                return fail, n
+    return None, n
+
+
+def xlsx_positions_scope():
+    """Cell value kinds by POSITION: one sheet per depth p with every non-plain kind openpyxl can return (datetime, date, time,
+    duration, Decimal) in data row p and nowhere above it -- once in a column that is empty above, once in a column holding plain
+    values above, once with a value of another non-plain kind in data row 1 of the same column -- and the same at the last of a run of
+    trailing rows.  p ranges over small depths, powers of two + 1 and c-1 .. c+2 around every integer constant c of xlsx_extractor.py
+    (a conversion that samples the leading rows, the first non-empty cell of a column or a row window has its threshold there)."""
+    import datetime
+    import decimal
+    import openpyxl
+    from sharepoint2text.parsing.extractors.ms_modern import xlsx_extractor as X
+    special = [("datetime", datetime.datetime(2024, 1, 2, 3, 4, 5)), ("date", datetime.date(2024, 1, 2)), ("time", datetime.time(3, 4, 5)),
+               ("duration", datetime.timedelta(hours=1, minutes=30)), ("decimal", decimal.Decimal("19.99"))]
+    depths = {1, 2, 3, 17, 129, 1025}
+    consts = set(module_int_constants(X, lo=2, hi=70000))
+    try:                                                     # literals inside function bodies as well
+        import ast
+        import inspect
+        consts.update(x.value for x in ast.walk(ast.parse(inspect.getsource(X)))
+                      if isinstance(x, ast.Constant) and isinstance(x.value, int) and not isinstance(x.value, bool) and 2 <= x.value <= 70000)
+    except Exception:  # noqa
+        pass
+    named = set(module_int_constants(X, lo=2, hi=70000))
+    deep, literal_depths = set(), set()
+    for c in consts:
+        if c > 4100:
+            deep.add(c + 1)                                  # one narrow sheet just beyond a large constant
+        elif c in named:
+            depths.update(d for d in (c - 1, c, c + 1, c + 2) if d >= 1)
+        else:
+            literal_depths.update((c, c + 1))                # literals of function bodies: one shared sheet, a column pair per depth
+    all_special = special
+    n = 0
+    if literal_depths:
+        ds = sorted(literal_depths)
+        wb = openpyxl.Workbook()
+        ws = wb.active
+        ws.append(["id"] + [f"empty-until-{d}" for d in ds] + [f"plain-until-{d}" for d in ds])
+        for i in range(1, ds[-1] + 1):
+            ws.append([i] + [all_special[j % 5][1] if d == i else None for j, d in enumerate(ds)]
+                      + [all_special[(j + 2) % 5][1] if d == i else (i if d > i else None) for j, d in enumerate(ds)])
+        buf = io.BytesIO()
+        try:
+            wb.save(buf)
+            buf.seek(0)
+            results = list(X.read_xlsx(buf, "cells.xlsx"))
+        except Exception:  # noqa
+            results = []
+        n += 1 if results else 0
+        fail = _check_results(results, {"file": f"XLSX, {ds[-1]} data rows: per depth d in {ds} one column empty above data row d and one holding integers above it, "
+                                                 "each with a datetime/date/time/duration/Decimal value in data row d"})
+        if fail:
+            return fail, n
+    for p in sorted(depths | deep):
+        special = all_special if p in depths else [all_special[0], all_special[3]]
+        wb = openpyxl.Workbook()
+        ws = wb.active
+        k = len(special)
+        ws.append(["id"] + [f"empty-then-{l}" for l, _ in special] + [f"plain-then-{l}" for l, _ in special] + [f"other-then-{l}" for l, _ in special])
+        for i in range(1, p):
+            other = [special[(j + 1) % k][1] for j in range(k)] if i == 1 else [None] * k
+            ws.append([i] + [None] * k + [("x" if j % 2 else i) for j in range(k)] + other)
+        vals = [v for _, v in special]
+        ws.append([p] + vals + vals + vals)
+        for i in range(3):
+            ws.append([p + 1 + i] + [None] * k + ["y"] * k + [None] * k)
+        ws.append([p + 4] + vals[::-1] + [None] * (2 * k))
+        buf = io.BytesIO()
+        try:
+            wb.save(buf)
+            buf.seek(0)
+            results = list(X.read_xlsx(buf, "cells.xlsx"))
+        except Exception:  # noqa
+            continue
+        n += 1
+        for r in results:
+            where = {"file": f"XLSX, {p + 4} data rows x {3 * k + 1} columns: first {'/'.join(l for l, _ in special)} values of their columns in data row {p} "
+                             f"(columns empty above / plain values above / another kind in data row 1), again in data row {p + 4}"}
             fail = check_instance(r, where)
             for u in ([] if fail else r.iterate_units()):
                 fail = fail or check_instance(u, dict(where, unit=True))
@@ -1165,7 +1263,7 @@ def function_differential_scope():
     return None, n
 
 
-SCOPES = ("metadata-paths", "xls-workbook-rows", "marker-slots", "function-differential", "type-directed-roundtrip", "base64-helpers-boundary-sizes", "post-init-idempotent", "ods-cell-kinds", "xlsx-cell-kinds", "xls-cell-kinds",
+SCOPES = ("metadata-paths", "xls-workbook-rows", "marker-slots", "function-differential", "type-directed-roundtrip", "base64-helpers-boundary-sizes", "post-init-idempotent", "ods-cell-kinds", "xlsx-cell-kinds", "xlsx-cell-positions", "xls-cell-kinds",
           "cli-stdout-json", "cli-payload-shapes", "fixture-documents")
 
 
@@ -1185,7 +1283,7 @@ def run_scope(name):
         return r, f"{n} calls: _serialize_for_json / serialize_extraction on values of every kind (nested one level), _deserialize_value on 32 JSON documents x 42 hints, _deserialize_dataclass, deserialize_extraction, _unwrap_optional -- against the executable SER/DESER"
     if name == "type-directed-roundtrip":
         r, n = type_directed_scope(False)
-        return r, f"{n} instances: 5 type-directed variants of every registered dataclass, strings from a vocabulary with the markers, BOM, whitespace, lone surrogate, control and non-BMP characters"
+        return r, f"{n} instances: 6 type-directed variants of every registered dataclass (one with None in every field whose default is not None), strings from a vocabulary with the markers, BOM, whitespace, lone surrogate, control and non-BMP characters"
     if name == "base64-helpers-boundary-sizes":
         r = b64_helpers_scope()
         if r and r["target"].endswith("_bytes_to_base64"):
@@ -1202,6 +1300,9 @@ def run_scope(name):
     if name == "xlsx-cell-kinds":
         r, n = xlsx_cells_scope()
         return r, f"{n} one-cell .xlsx documents: int, float, text, bool, None, datetime, date, time, durations, Decimal, formula, error text"
+    if name == "xlsx-cell-positions":
+        r, n = xlsx_positions_scope()
+        return r, f"{n} .xlsx sheets: datetime, date, time, duration, Decimal first appearing in data row p of an empty / plain / other-kind column, p small, 2^k+1 and around every integer constant of xlsx_extractor.py"
     if name == "xls-cell-kinds":
         r, n = xls_cells_scope()
         return r, f"{n} calls of _get_cell_values on xlrd Cell objects: 7 cell types x boundary values (date serials < 1, 59..61, huge, negative), date modes 0/1"
@@ -1241,7 +1342,7 @@ ROUTES = (("native-scope/bounded#", None),
           ("keys-are-str", ("xls-workbook-rows", "marker-slots")),
           ("dict-keys", ("marker-slots",)),
           ("ods_extractor", ("ods-cell-kinds",)),
-          ("xlsx_extractor", ("xlsx-cell-kinds",)),
+          ("xlsx_extractor", ("xlsx-cell-kinds", "xlsx-cell-positions")),
           ("xls_extractor", ("xls-cell-kinds", "xls-workbook-rows")), ("XlsSheet", ("xls-workbook-rows",)),
           ("populate_from_path", ("metadata-paths",)), ("Metadata", ("metadata-paths",)),
           ("field-stores", ("metadata-paths", "post-init-idempotent", "type-directed-roundtrip")),
